@@ -488,6 +488,42 @@ def r8_key_is_this_recipients(run):
                   (unparse(a) if a is not None else None), fi.loc(c))
 
 
+def r9_advice_decision_on_every_path(run):
+    run.rule("R9", "Entity._response: whether the advice assertion is to be "
+             "encrypted is examined on every path that ends in handing out a "
+             "response - no return (e.g. 'only the assertion needs signing') "
+             "comes before the tests of encrypted_advice_attributes unless its "
+             "own guard says that no advice encryption was asked for")
+    m = run.model
+    fi = m.func("entity.Entity._response")
+    cfg = cfg_of(fi, m)
+    flag = "encrypted_advice_attributes"
+    run.require(flag in fi.params(), "_response: parameter %s vanished" % flag)
+
+    def mentions(e):
+        return any(isinstance(x, ast.Name) and x.id == flag
+                   for x in ast.walk(e))
+    deciding = [t for t in cfg.by_kind("test")
+                if mentions(t.ast) or mentions(cfg.ctest(t.id))]
+    run.floor("R9", "tests of %s in _response" % flag, len(deciding), 2)
+    # the tests that decide about the encryption block (they also look at the
+    # advice itself); a return is fine when it is guarded by `not flag`
+    block = [t.id for t in deciding
+             if any(isinstance(x, ast.Attribute) and x.attr == "advice"
+                    for x in ast.walk(cfg.ctest(t.id)))]
+    run.floor("R9", "tests that open the advice encryption", len(block), 1)
+    excs = {n.id for n in cfg.nodes if n.kind == "exc"}
+    off = {n.id for n in cfg.nodes if n.kind in ("true", "false") and
+           Q(flag, False) in cfg.branch_atoms(n.id)}
+    wit = cfg.path(cfg.entry, cfg.return_exit, set(block) | excs | off)
+    run.check(wit is None, "R9", fi.qual + "::advice-decision-before-return",
+              "every normal return comes after the advice-encryption decision "
+              "(or under `not %s`)" % flag,
+              "a response is handed out without looking at %s: an advice "
+              "assertion whose encryption was asked for leaves in clear" % flag,
+              fi.loc(), witness=cfg.describe_path(wit) if wit else None)
+
+
 def check(run):
     run.explanation = (
         "C17: statement-order rule sign-assertion < encrypt < sign-response in "
@@ -508,3 +544,4 @@ def check(run):
     r6_undecryptable(run)
     r7_encryption_key_lookup(run)
     r8_key_is_this_recipients(run)
+    r9_advice_decision_on_every_path(run)
